@@ -2,6 +2,7 @@
 # matrix.sh : run every seeded change against its own property's quick check (full pipeline) and
 # record the verdicts in seeded/RESULTS.txt
 cd /verif
+export VERIF_SHRINK_SECONDS=${VERIF_SHRINK_SECONDS:-8}
 out=seeded/RESULTS.txt; : > $out
 for d in seeded/C*/; do
   id=$(basename $d)
